@@ -117,7 +117,8 @@ Record fcase := mkfcase {
   f_client_minor : N;                        (* the client spoke HTTP/1.<minor> *)
   f_closed : bool;                           (* the client's stream ended (FIN or reset) — false: still open when the client gave up *)
   f_reject : bool;                           (* the reply is an upstream proxy's rejection of the transport's CONNECT (relayed via connectError) *)
-  f_handler : bool                           (* the proxy is served through martian's http.Handler on net/http's server *)
+  f_handler : bool;                          (* the proxy is served through martian's http.Handler on net/http's server *)
+  f_tlscut : bool                            (* https origin whose TCP connection ended WITHOUT a TLS close_notify *)
 }.
 
 Definition is_error_response (r : presult) : bool := has_header error_header r.
@@ -145,11 +146,18 @@ Definition fcase_expect (c : fcase) : N :=
     (* net/http's server frames a body of unknown length as chunked for an HTTP/1.1 client and the handler aborts
        (panic(http.ErrAbortHandler)) when copying the body fails: the terminating chunk is never written *)
     (if f_framing c =? 3 then (if f_rst c then 2 else 1) else if f_k c =? f_replylen c then 1 else 2)
-  else if f_k c =? f_replylen c then 1
+  else if (f_k c =? f_replylen c) && negb ((f_framing c =? 3) && f_rst c && negb (f_tlscut c)) then 1
   else if f_reject c then 4   (* OnProxyConnectResponse could not read the rejection's body: status and header relayed, body dropped *)
-  else if (f_framing c =? 3) || ((f_framing c =? 2) && (f_client_minor c =? 0))
-       then (if (f_framing c =? 3) && negb (f_rst c) then 1 else 3)
-       else 2.
+  else if f_framing c =? 3 then
+    (* a close-delimited origin reply.  An orderly end of the origin's connection IS the end of the body.
+       Tables.close_delimited_rechunked: an HTTP/1.1 client gets the body in chunks, so an upstream failure leaves it
+       visibly unterminated; an HTTP/1.0 client gets it close-delimited and the proxy's orderly close completes it.
+       net/http's transport reports a TCP end without close_notify on a close-delimited body as a clean end, so the
+       proxy cannot tell that cut from the end of the body. *)
+    if negb (f_rst c) || f_tlscut c then (if f_tlscut c then 3 else 1)
+    else if close_delimited_rechunked && (f_client_minor c =? 1) then 2 else 3
+  else if (f_framing c =? 2) && (f_client_minor c =? 0) then 3   (* chunked reply delivered close-delimited to an HTTP/1.0 client *)
+  else 2.
 
 (* correspondence: the relay behaves as the path model says, and the two parsers agree *)
 Definition fcase_model_ok_r (c : fcase) (r : presult) : bool :=
